@@ -68,7 +68,7 @@ where
         x.parse::<i64>()
             .map_err(|_| StreamErrorFor::<I>::message_static_message("integer out of range"))
     });
-    (sign, attempt(hex).or(dec)).map(|(s, x)| s * x)
+    (sign, attempt(hex).or(dec)).map(|(s, x): (i64, i64)| s.wrapping_mul(x))
 }
 
 fn register<I>() -> impl Parser<I, Output = i64>
